@@ -433,6 +433,7 @@ func (s *EtcdStore) growTopic(ctx context.Context, topic string, partitionCount 
 		if int32(len(newPartitions)) != partitionCount-current {
 			return fmt.Errorf("metadata: expected %d new partitions, got %d", partitionCount-current, len(newPartitions))
 		}
+		verifGate("snapshot.createPartitions.beforePersist", fmt.Sprintf("%p", s))
 		return nil
 	})
 	if err != nil {
@@ -543,6 +544,8 @@ func (s *EtcdStore) watchSnapshot(ctx context.Context) {
 }
 
 func (s *EtcdStore) refreshSnapshot(ctx context.Context) error {
+	verifGate("snapshot.refresh", fmt.Sprintf("%p", s))
+	defer verifGate("snapshot.refresh.done", fmt.Sprintf("%p", s))
 	s.persistMu.Lock()
 	defer s.persistMu.Unlock()
 	_, err := s.refreshSnapshotLocked(ctx)
